@@ -69,6 +69,8 @@ class SimTor(object):
         self.onions = collections.OrderedDict()
         self.next_onion = 0
         self.on_command = None          # optional hook(line) called before answering
+        self.onion_id_hook = None       # callable(parsed ADD_ONION request) -> service id (or None)
+        self.onion_key_hook = None      # callable(parsed ADD_ONION request) -> 'TYPE:blob' Tor "generates" (or None)
         self.strict_conf = False        # reject SETCONF of options that are not in the store
         self.info.update({
             'version': '0.4.8.1',
@@ -254,12 +256,16 @@ class SimTor(object):
             return (512, [('line', str(e))])
         self.next_onion += 1
         sid = ('srv%02d' % self.next_onion + 'a' * 56)[:56] if req['key_type_wanted'] != 'RSA1024' else ('srv%02d' % self.next_onion + 'b' * 16)[:16]
+        if self.onion_id_hook is not None:
+            sid = self.onion_id_hook(req) or sid
         req['service_id'] = sid
         self.onions[sid] = req
         parts = [('line', 'ServiceID=%s' % sid)]
         if req['key_spec'][0] == 'NEW' and 'DiscardPK' not in req['flags']:
             kt = 'ED25519-V3' if req['key_spec'][1] in ('BEST', 'ED25519-V3') else 'RSA1024'
             req['generated_key'] = '%s:GENERATEDKEY%02d==' % (kt, self.next_onion)
+            if self.onion_key_hook is not None:
+                req['generated_key'] = self.onion_key_hook(req) or req['generated_key']
             parts.append(('line', 'PrivateKey=%s' % req['generated_key']))
         for name, tok in req['client_auth']:
             if tok is None:
